@@ -483,8 +483,14 @@ func newTeletextPageBuffer(page int, cd *teletextCharacterDecoder) *teletextPage
 	return &teletextPageBuffer{
 		cd:             cd,
 		magazineNumber: uint8(page / 100),
-		pageNumber:     page % 100,
+		pageNumber:     teletextPageNumber(uint8(page%100/10), uint8(page%10)),
 	}
+}
+
+// teletextPageNumber combines the two digits of a page number. They are hexadecimal digits on the wire (pages such as
+// 1F exist), therefore tens*10+units would make page 1F collide with page 25.
+func teletextPageNumber(tens, units uint8) int {
+	return int(tens)<<4 | int(units)
 }
 
 // TODO Add tests
@@ -627,7 +633,7 @@ func (b *teletextPageBuffer) parsePacketHeader(i []byte, magazineNumber uint8, t
 	if !ok {
 		return
 	}
-	pageNumber := int(pageNumberTens)*10 + int(pageNumberUnits)
+	pageNumber := teletextPageNumber(pageNumberTens, pageNumberUnits)
 
 	// 0xff is a reserved page number value
 	if pageNumberTens == 0xf && pageNumberUnits == 0xf {
@@ -647,7 +653,7 @@ func (b *teletextPageBuffer) parsePacketHeader(i []byte, magazineNumber uint8, t
 		if subtitleFlag {
 			b.magazineNumber = magazineNumber
 			b.pageNumber = pageNumber
-			log.Printf("astisub: no teletext page specified, using page %d%.2d", b.magazineNumber, b.pageNumber)
+			log.Printf("astisub: no teletext page specified, using page %d%.2x", b.magazineNumber, b.pageNumber)
 		}
 	}
 
